@@ -23,6 +23,7 @@ import (
 	"sort"
 	"strconv"
 	"strings"
+	"sync"
 	"time"
 
 	"github.com/benhoyt/goawk/interp"
@@ -148,9 +149,6 @@ func (o op) render(mode string) string {
 			}
 			st = "print " + strings.Join(args, ", ") + o.destText()
 		}
-		if o.Dest == "p" && mode != "osfile" {
-			st += "\n  Y()"
-		}
 		return st
 	case "C":
 		return "R(close(" + nm + "))"
@@ -269,7 +267,27 @@ func (f *failW) Write(p []byte) (int, error) {
 	return room, errInjected
 }
 
+// lockedBuf: Config.Error.  A plain writer (no ReadFrom) guarded by a mutex, because os/exec's
+// goroutines copy the children's stderr into it while goawk writes its own messages.
+type lockedBuf struct {
+	mu sync.Mutex
+	b  []byte
+}
+
+func (l *lockedBuf) Write(p []byte) (int, error) {
+	l.mu.Lock()
+	defer l.mu.Unlock()
+	l.b = append(l.b, p...)
+	return len(p), nil
+}
+func (l *lockedBuf) String() string {
+	l.mu.Lock()
+	defer l.mu.Unlock()
+	return string(l.b)
+}
+
 type outcome struct {
+	Stderr string
 	Result string // s:<status> | e | panic
 	ErrMsg string
 	Out    []byte
@@ -320,7 +338,6 @@ func runImpl(h history) (oc outcome, herr error) {
 	funcs := map[string]any{
 		"R": func(v float64) { obs = append(obs, "r:"+strconv.Itoa(int(v))) },
 		"L": func(s string) { obs = append(obs, "l:"+hx.HexS(s)) },
-		"Y": func() { time.Sleep(300 * time.Microsecond) },
 	}
 	prog, err := parser.ParseProgram([]byte(h.program()), &parser.ParserConfig{Funcs: funcs})
 	if err != nil {
@@ -345,7 +362,8 @@ func runImpl(h history) (oc outcome, herr error) {
 		bw = bufio.NewWriterSize(fw, h.Cap)
 		output = bw
 	}
-	cfg := &interp.Config{Output: output, Error: io.Discard, Stdin: strings.NewReader(""), Funcs: funcs, Environ: []string{}}
+	errBuf := &lockedBuf{}
+	cfg := &interp.Config{Output: output, Error: errBuf, Stdin: strings.NewReader(""), Funcs: funcs, Environ: []string{}}
 	func() {
 		defer func() {
 			if r := recover(); r != nil {
@@ -370,6 +388,7 @@ func runImpl(h history) (oc outcome, herr error) {
 		oc.Out = fw.data
 	}
 	oc.Obs = obs
+	oc.Stderr = errBuf.String()
 	oc.Files = map[int][]byte{}
 	var walk func(rel string) error
 	walk = func(rel string) error {
@@ -1007,6 +1026,17 @@ func runCase(h history, rep *hx.Report) *kase {
 	return &kase{h: h, line: h.modelLine(), impl: oc, class: classify(h)}
 }
 
+// machineTrouble: diagnostics goawk prints when the operating system, not the AWK program,
+// shaped the run (overloaded machine).
+func machineTrouble(stderr string) string {
+	for _, m := range []string{"WaitDelay expired", "resource temporarily unavailable", "cannot allocate memory", "too many open files"} {
+		if strings.Contains(stderr, m) {
+			return strings.ReplaceAll(m, " ", "-")
+		}
+	}
+	return ""
+}
+
 func replay(o hx.Opts) {
 	var rp struct {
 		Failure struct {
@@ -1075,7 +1105,7 @@ func main() {
 	rep := hx.NewReport("C13", o.Seed, o.Tier)
 	rep.Rule = "histories of <= 16 ops (print/printf to stdout, \"-\", /dev/stdout, > and >> two files, | two commands that append to files; close, fflush, system, getline <file, cmd|getline, getline, exit, run-time error) x Output in {*os.File, plain writer, bufio.Writer of 1..64 bytes} x failure of the underlying writer at every byte offset for a subset; systematic list first, then random; distinct = distinct model request; non-trivial = at least one op executed that writes, closes or starts a process"
 	r := hx.NewRand(o.Seed)
-	nRand, nFail := 260, 6
+	nRand, nFail := 200, 6
 	if o.Tier == "thorough" {
 		nRand, nFail = 12000, 300
 	}
@@ -1152,6 +1182,13 @@ func main() {
 		}
 		t0 := time.Now()
 		k := runCase(h, rep)
+		if k != nil && machineTrouble(k.impl.Stderr) != "" {
+			// os/exec gave up waiting for a child's I/O (goawk sets WaitDelay = 250 ms) or could not
+			// start a process: the machine, not the program, decided this run.  Not compared, counted.
+			rep.Unmodelled++
+			rep.Count("unmodelled:machine:" + machineTrouble(k.impl.Stderr))
+			continue
+		}
 		if d := time.Since(t0); d > slow {
 			slow = d
 			if os.Getenv("C13_DEBUG") != "" {
